@@ -1,6 +1,8 @@
 package main
 
 import (
+	"fmt"
+	"os"
 	"sort"
 	"strings"
 
@@ -11,7 +13,7 @@ import (
 // functions whose returned error propagates, call by call, to the error BeginBlock/EndBlock returns, which stops the
 // chain — every place where an error is *made* (fmt.Errorf / errors.New / a sentinel, not wrapping another error) is a
 // condition on values that halts every node when it is met. The inventory of these origins is frozen in
-// tables/c10_fatal_origins.tsv, one reviewed row each ("<function> <message or sentinel>" → why block content cannot
+// tables/c10_fatal_origins.tsv, one reviewed row each ("<function> when <innermost condition>" or "<function> <sentinel>" → why block content cannot
 // make it true); an origin that is not listed is a violation. Errors that wrap an underlying error (%w or an error
 // argument) pass that error on and are not origins.
 func c10ErrOrigins(c *Ctx, g *CG) {
@@ -29,7 +31,7 @@ func c10ErrOrigins(c *Ctx, g *CG) {
 		}
 	}
 	cone, parent := g.FatalCone(entries, outsideConeUniverse)
-	type org struct{ key, pos, chain string }
+	type org struct{ key, pos, chain, msg string }
 	var orgs []org
 	for _, f := range cone {
 		if f.Blocks == nil {
@@ -57,7 +59,7 @@ func c10ErrOrigins(c *Ctx, g *CG) {
 					if nm == "fmt.Errorf" && (strings.Contains(msg, "%w") || wrapsErrorArg(x)) {
 						continue
 					}
-					orgs = append(orgs, org{fname(f) + " " + msg, c.P.InstrPos(in), g.Chain(parent, f)})
+					orgs = append(orgs, org{fname(f) + " when " + innermostCond(in), c.P.InstrPos(in), g.Chain(parent, f), msg})
 				case *ssa.Return:
 					idx := errResultIndex(f)
 					if idx < 0 || idx >= len(x.Results) {
@@ -66,7 +68,7 @@ func c10ErrOrigins(c *Ctx, g *CG) {
 					for _, v := range phiLeaves(x.Results[idx], map[ssa.Value]bool{}) {
 						if u, ok := v.(*ssa.UnOp); ok {
 							if gl, ok := u.X.(*ssa.Global); ok && isErrorType(u.Type()) {
-								orgs = append(orgs, org{fname(f) + " " + short(gl.Pkg.Pkg.Path()) + "." + gl.Name(), c.P.InstrPos(in), g.Chain(parent, f)})
+								orgs = append(orgs, org{fname(f) + " " + short(gl.Pkg.Pkg.Path()) + "." + gl.Name(), c.P.InstrPos(in), g.Chain(parent, f), ""})
 							}
 						}
 					}
@@ -82,13 +84,30 @@ func c10ErrOrigins(c *Ctx, g *CG) {
 		}
 		seen[o.key] = true
 		if reason, ok := c.Tabled(tblName, o.key); ok {
-			c.TabledOK(rule, o.key, o.pos, reason+" [chain: "+o.chain+"]")
+			c.TabledOK(rule, o.key, o.pos, reason+" [message: "+o.msg+"; chain: "+o.chain+"]")
+			if os.Getenv("C10_ORIGINS_MAP") != "" {
+				fmt.Println("ORIGINMAP\t" + o.key + "\t" + o.msg)
+			}
 		} else {
-			c.Fail(rule, o.key, o.pos, "a new error is made on the Begin/EndBlock fatal cone (its value propagates to the error BeginBlock/EndBlock returns, which halts every node): the condition it reports must be impossible for every block content and state reachable through transactions — it is not in the reviewed inventory tables/c10_fatal_origins.tsv; one propagation chain: "+o.chain)
+			c.Fail(rule, o.key, o.pos, "a new error is made on the Begin/EndBlock fatal cone (its value propagates to the error BeginBlock/EndBlock returns, which halts every node): the condition it reports must be impossible for every block content and state reachable through transactions — it is not in the reviewed inventory tables/c10_fatal_origins.tsv (message: "+o.msg+"); one propagation chain: "+o.chain)
+			if os.Getenv("C10_ORIGINS_MAP") != "" {
+				fmt.Println("ORIGINMAP\t" + o.key + "\t" + o.msg)
+			}
 		}
 	}
 	c.Extra["fatal_error_origins"] = len(seen)
 	c.Floor(rule, len(seen), 20, "error origins on the Begin/EndBlock fatal cone")
+}
+
+// innermostCond: the condition of the closest branch that leads to the instruction (canonical rendering), so that an
+// origin is identified by what it tests and not by the wording of its message.
+func innermostCond(in ssa.Instruction) string {
+	hs := heldCondVals(in)
+	if len(hs) == 0 {
+		return "(unconditional)"
+	}
+	h := hs[len(hs)-1]
+	return normCond(h.Cond, h.Pol)
 }
 
 // wrapsErrorArg: one of the variadic arguments of the Errorf call is an error value.
